@@ -12,7 +12,7 @@ over the query tree; `toIR` = the model of the frontend, compared with the real 
 by query by C11):
 
     theorem interp_eq_spec (S : SchemaView) (q : Spec.Query) (ir : IRQuery) (D : Data) (args) :
-        toIR S q = .ok ir → Hyps3 ⟨S, D, args, edges⟩ q ir →
+        toIR S q = .ok ir → Hyps3 ⟨S, D, args, edges⟩ q →
         (interpret { Env.ofData D args with useLimits := false } ir).toOption =
           (Spec.rows ⟨D, args, edges⟩ q).toOption
 
@@ -27,8 +27,10 @@ any depth: `interp_eq_spec` (= `interp_eq_spec_F3`), `interp_ok_iff_spec_ok`; th
 `interp_eq_spec_F3a`, `interp_ok_iff_spec_ok_F3a` are kept.  Nothing is open; what remains are the decidable
 hypotheses `Hyps3` (Proofs/InterpSpec/HypsDef.lean, Proofs/InterpSpec4/HypsDef3.lean): arguments present and
 regex variables compile (F-4), filters of a vertex in selection order = the frontend's grouped order,
-parameter completion agrees, recursion dataset convention, no count-filtered fold under a possibly missing
-optional scope (F-9), no duplicate tag imports (F-10), height ≤ 64.  Every run reports how many generated queries
+parameter completion agrees, recursion dataset convention, height ≤ 64 — conditions on the query tree, the
+dataset and the arguments only.  (The former guards "no count-filtered fold under a possibly missing optional
+scope" [F-9] and "no duplicate tag imports" [F-10] are gone with the fixes of these defects: the first case is
+now covered by the simulation, the second is a theorem about `toIR`, `importsOKC_of_toIR`.)  Every run reports how many generated queries
 fall into the proved fragment with the hypotheses `Hyps` satisfied (driver request `hyps-c01`).
 
 Proved so far — the stage lemmas the induction is assembled from, each tying one engine mechanism
